@@ -114,6 +114,8 @@ class VMDK(AlignedStream):
     def _read(self, offset: int, length: int) -> bytes:
         log.debug("VMDK::_read(0x%x, 0x%x)", offset, length)
 
+        # The buffered layer may ask for a full buffer at the tail of the disk
+        length = min(length, self.size - offset)
         sector = offset // SECTOR_SIZE
         count = (length + SECTOR_SIZE - 1) // SECTOR_SIZE
 
